@@ -10,7 +10,13 @@ EXTENDS Server, Json
 
 CONSTANTS Mode,        \* "conn" | "dgram"
           NConn, MaxReq, QCapG, Kinds, MaxOps, MaxCredit, MaxTick,
-          Limit        \* max_concurrent_connections of the stream server
+          Limit,       \* max_concurrent_connections of the stream server
+          Defaults     \* TRUE: the servers are built without any explicit configuration;
+                       \* one half tick is then half the documented timeout (15 s)
+
+ASSUME Defaults => /\ QCapG = Doc.max_queued_responses
+                   /\ Limit = Doc.max_concurrent_connections
+                   /\ Doc.idle_timeout = Doc.response_write_timeout
 
 VARIABLES w, hist
 vars == <<w, hist>>
@@ -46,6 +52,7 @@ ApplyOpen(f, op) ==
 ApplyConns(f, op) ==
   CASE op.op = "open" -> ApplyOpen(f, op)
     [] op.op = "accepterr" -> f          \* a failed accept() changes nothing
+    [] op.op = "wait" -> f               \* less than half a tick of time passes (see W)
     [] op.op = "halftick" -> [c \in Conns |-> Settle(EnvHalfTick(f[c]))]
     [] op.op = "shutdown" -> [c \in Conns |-> Settle(EnvShutdown(f[c]))]
     [] OTHER              -> [f EXCEPT ![op.c] = Settle(Stim(f[op.c], op))]
@@ -94,12 +101,12 @@ ConnOps(x) ==
 
 DgOps(x) ==
   UNION {
-    {Op("reconf", 0, "", lim, "") : lim \in {512, 1232, 4096} \ {x.dg.limit}},
+    {Op("reconf", 0, "", lim, "") : lim \in {lm \in {100, 512, 1232, 4096, 60000} : DgReconf(x.dg, lm) # x.dg}},
     {Op("spurious", 0, "", 0, "")},
     IF x.dg.sendfail = 0 THEN {Op("senderr", 0, "", 0, "")} ELSE {},
     IF x.sent[1] < MaxReq
       THEN {Op("recv", 0, wh, x.sent[1] + 1, svc) : wh \in {"query", "short"}, svc \in Kinds}
-           \cup {Op("recv", 0, "query", x.sent[1] + 1, "big")}
+           \cup {Op("recv", 0, "query", x.sent[1] + 1, svc) : svc \in {"big", "mid", "huge"}}
            \cup {Op("recv", 0, wh, x.sent[1] + 1, "") : wh \in {"reply", "shortqr"}}
       ELSE {},
     {Op("release", 0, "", r, "") :
@@ -122,8 +129,8 @@ Spec == Init /\ [][Next]_vars
 
 CaseOf(h) ==
   [in  |-> IF Mode = "dgram"
-           THEN [kind |-> "dgram", hint |-> 1232, ops |-> [i \in 1..Len(h) |-> h[i].op]]
-           ELSE [kind |-> "conn", q |-> QCapG, nc |-> NConn, limit |-> Limit, ops |-> [i \in 1..Len(h) |-> h[i].op]],
+           THEN [kind |-> "dgram", hint |-> Doc.udp_max_response_size, defaults |-> Defaults, ops |-> [i \in 1..Len(h) |-> h[i].op]]
+           ELSE [kind |-> "conn", q |-> QCapG, nc |-> NConn, limit |-> Limit, defaults |-> Defaults, ops |-> [i \in 1..Len(h) |-> h[i].op]],
    exp |-> [i \in 1..Len(h) |-> h[i].pi],
    dev |-> [D_queue_full_drop |-> [i \in 1..Len(h) |-> h[i].pd]]]
 
@@ -148,6 +155,9 @@ Rl(c, r) == Op("release", c, "", r, "")
 Cr(c) == Op("credit", c, "", 0, "")
 Ab(c) == Op("abort", c, "", 0, "")
 HT == Op("halftick", 0, "", 0, "")
+\* ms milliseconds pass; all waits of one behaviour together stay below half
+\* a tick, so whether a timer has expired is decided by the half ticks alone
+W(ms) == Op("wait", 0, "", ms, "")
 AE == Op("accepterr", 0, "", 0, "")     \* poll_accept returns an error once
 SD == Op("shutdown", 0, "", 0, "")
 
@@ -195,6 +205,17 @@ Directed ==
      <<O(1), Cr(1), Cr(1), Q(1,1,"rshort"), Rl(1,1), HT, Q(1,2,"single"), Rl(1,2)>>,
      <<O(1), Cr(1), Cr(1), Cr(1), Q(1,1,"rshort"), Q(1,2,"rlong"), Rl(1,1), Rl(1,2), HT, HT, HT, Q(1,3,"single"), Rl(1,3), HT>>,
      <<O(1), O(2), Cr(1), Cr(2), Q(1,1,"rlong"), Rl(1,1), HT, HT, Q(2,1,"single"), Rl(2,1), HT>>,
+     \* feedback-only stream items (as the XFR middleware emits): inside the
+     \* transaction a full queue waits, nothing is lost however slow the peer
+     <<O(1), Q(1,1,"xfr"), Rl(1,1), Rl(1,1), Rl(1,1), Rl(1,1), Rl(1,1), Rl(1,1),
+       Cr(1), Cr(1), Cr(1), Cr(1)>>,
+     <<O(1), Q(1,1,"xfr"), Q(1,2,"single"), Rl(1,1), Rl(1,1), Rl(1,2), Rl(1,1), Rl(1,1), Rl(1,1), Rl(1,1),
+       Cr(1), Cr(1), Cr(1), Cr(1), Cr(1)>>,
+     \* all permits there before the request is read: the whole stream in one poll
+     <<O(1), P(1,1,"xfr"), Rl(1,1), Rl(1,1), Rl(1,1), Rl(1,1), Rl(1,1), Rl(1,1), Rs(1),
+       Cr(1), Cr(1), Cr(1), Cr(1)>>,
+     \* feedback-only Reconfigure
+     <<O(1), Cr(1), Cr(1), Q(1,1,"fblong"), Rl(1,1), HT, HT, HT, Rl(1,1), Q(1,2,"single"), HT, HT, HT, Rl(1,2)>>,
      \* a failing accept() does not end the accept loop
      <<AE, O(1), Cr(1), Q(1,1,"single"), Rl(1,1)>>,
      <<O(1), AE, AE, O(2), Cr(2), Cr(1), Q(2,1,"single"), Rl(2,1), Q(1,1,"single"), Rl(1,1), AE, Ab(1), O(3), Cr(3), Rp(3,1)>>,
@@ -203,6 +224,20 @@ Directed ==
      \* open / close cycles of every kind do not use up the limit
      <<O(1), Ab(1), O(2), Sh(2), OF(3), O(4), Cr(4), Q(4,1,"single"), Rl(4,1)>>,
      <<O(1), HT, HT, O(2), Cr(2), Q(2,1,"single"), HT, O(3), Rl(2,1), HT, HT, O(4), Cr(4), Rp(4,1)>> >>
+
+\* servers built with their default configuration: documented timeouts (a
+\* slow reader well below the write timeout loses nothing), queue of 10
+DirectedDefaults ==
+  << <<O(1), Q(1,1,"single"), Rl(1,1), W(300), Cr(1), Q(1,2,"single"), Rl(1,2), W(5000), Cr(1),
+       Q(1,3,"single"), Rl(1,3), HT, W(4000), Cr(1), Q(1,4,"single"), Rl(1,4), HT, HT, Cr(1)>>,
+     <<O(1), HT, W(14000), HT>>,
+     <<O(1), HT, Cr(1), Q(1,1,"single"), W(9000), HT, Rl(1,1), HT, W(5000), HT>>,
+     <<O(1), Q(1,1,"single"), Q(1,2,"single"), Q(1,3,"single"), Q(1,4,"single"), Q(1,5,"single"),
+       Q(1,6,"single"), Q(1,7,"single"), Q(1,8,"single"), Q(1,9,"single"), Q(1,10,"single"),
+       Q(1,11,"single"), Q(1,12,"single"), Q(1,13,"single"),
+       Rl(1,1), Rl(1,2), Rl(1,3), Rl(1,4), Rl(1,5), Rl(1,6), Rl(1,7), Rl(1,8), Rl(1,9), Rl(1,10),
+       Rl(1,11), Rl(1,12), Rl(1,13),
+       Cr(1), Cr(1), Cr(1), Cr(1), Cr(1), Cr(1), Cr(1), Cr(1), Cr(1), Cr(1), Cr(1), Cr(1), Cr(1)>> >>
 
 DgDirected ==
   << <<Op("recv",0,"query",1,"single"), Op("recv",0,"reply",2,""), Op("recv",0,"short",3,"single"),
@@ -218,6 +253,11 @@ DgDirected ==
        Op("recv",0,"query",4,"big"), Op("reconf",0,"",4096,""), Op("release",0,"",4,""),
        Op("recv",0,"query",5,"big"), Op("reconf",0,"",512,""), Op("release",0,"",5,""),
        Op("recv",0,"query",6,"big"), Op("release",0,"",6,"")>>,
+     \* set_max_response_size clamps into 512..4096
+     <<Op("reconf",0,"",100,""), Op("recv",0,"query",1,"mid"), Op("release",0,"",1,""),
+       Op("recv",0,"query",2,"big"), Op("release",0,"",2,""),
+       Op("reconf",0,"",60000,""), Op("recv",0,"query",3,"huge"), Op("release",0,"",3,""),
+       Op("recv",0,"query",4,"big"), Op("release",0,"",4,"")>>,
      \* spurious readiness and send errors do not stop the server
      <<Op("spurious",0,"",0,""), Op("recv",0,"query",1,"single"), Op("release",0,"",1,""),
        Op("spurious",0,"",0,""), Op("spurious",0,"",0,""), Op("recv",0,"reply",2,""),
@@ -229,6 +269,12 @@ DgDirected ==
 EmitDirected ==
   hist = <<>> =>
     LET D == IF Mode = "dgram" THEN DgDirected
+             ELSE IF Defaults THEN DirectedDefaults
              ELSE SelectSeq(Directed, LAMBDA ops : \A i \in 1..Len(ops) : ops[i].c <= NConn)
-    IN \A i \in 1..Len(D) : PrintT("CASE " \o ToJson(CaseOf(Run(W0, D[i], <<>>))))
+    IN /\ \A i \in 1..Len(D) : PrintT("CASE " \o ToJson(CaseOf(Run(W0, D[i], <<>>))))
+       \* the defaults themselves, where the configuration types have getters
+       /\ (Defaults /\ Mode = "conn") =>
+            PrintT("CASE " \o ToJson([in |-> [kind |-> "cfg"],
+                 exp |-> [max_concurrent_connections |-> Doc.max_concurrent_connections,
+                          accept_connections_at_max |-> Doc.accept_connections_at_max]]))
 =============================================================================
